@@ -68,3 +68,9 @@ t["jobs"].append(dict(name="openssl", mode="plain", run="^TestOpenSSL$", shards=
 t["jobs"].append(fuzz_job("FuzzDecrypt", 120))
 add("C09", "c09", q, t)
 ASSUMPTIONS["C09"] = ["the harness' own EVP_BytesToKey(MD5,1)/AES-256-CBC/CTR/GCM reference (written from the OpenSSL definition on top of crypto/*) is correct; it is itself cross-checked against /usr/bin/openssl in the thorough tier when the binary is present"]
+
+# ---- C02 skip lists ------------------------------------------------------------
+q, t = rapid_jobs(qshards=4, tshards=16, tscale=10)
+add("C02", "c02", q, t)
+ASSUMPTIONS["C02"] = ["tower heights are injected by replacing the list's private *rand.Rand through reflection; if that field disappears the check falls back to the list's own randomness and says so (class FALLBACK)",
+                      "the very first insertion into a zero-value list draws its height from the list's own time-seeded source (lazy Init re-creates it); all later heights are case-controlled"]
